@@ -585,8 +585,13 @@ func main() {
 		"violations":  violations,
 	}
 	data, _ := json.MarshalIndent(ev, "", " ")
-	os.MkdirAll(filepath.Join(verifDir, "evidence"), 0o755)
-	if err := os.WriteFile(filepath.Join(verifDir, "evidence", id+".json"), data, 0o644); err != nil {
+	evDir := filepath.Join(verifDir, "evidence")
+	if os.Getenv("VERIF_REPO_DIR") != "" {
+		// a run against another tree (a seeded change in a scratch worktree) is not evidence about /repo
+		evDir = filepath.Join(os.TempDir(), "vcheck-evidence-other-tree")
+	}
+	os.MkdirAll(evDir, 0o755)
+	if err := os.WriteFile(filepath.Join(evDir, id+".json"), data, 0o644); err != nil {
 		die(2, "evidence: %v", err)
 	}
 	fmt.Printf("%s %s: %d runs (%d non-trivial, %d distinct shapes, %d distinct schedules), %d steps, %.0f s simulated, %.1f s wall, %d violations, %d known findings hit\n",
